@@ -215,7 +215,8 @@ def ROUND(number, digits):
     digits = utils.parse_number(digits)
     if utils.any_is_error((number, digits)):
         return error.VALUE
-    return round(number, digits)
+    # round() wants an int: the number of digits may well arrive as a float (4/2)
+    return round(number, int(digits))
 
 
 @dispatcher.register_for('ROUNDUP')
